@@ -92,6 +92,9 @@ Proof. apply bden_length. Qed.
 Lemma pden_length W c e : length (pden W c e) = length (w_graph W).
 Proof. apply pbden_length. Qed.
 
+Definition is_none (e : expr) : bool := match e with ENone => true | _ => false end.
+Definition is_all (e : expr) : bool := match e with EAll => true | _ => false end.
+
 (* ------------------------------------------------------------------ semantics facts *)
 
 Section Sound.
@@ -518,5 +521,889 @@ Section Sound.
     - (* Difference *) destruct Hw as [Hwa Hwb]. destruct (IHe1 c Hc Hwa) as [H1 H2].
       destruct (IHe2 c Hc Hwb) as [H3 H4]. split; [split; assumption|].
       unfold den, resolve in *. cbn [res fst snd bden]. now rewrite H2, H4.
+  Qed.
+
+  (* ---------------------------------------------------------------- set algebra helpers *)
+
+  Ltac bsets := apply (bset_ext n); [try apply tab_length; try apply den_length; try apply bden_length
+                                   | try apply tab_length; try apply den_length; try apply bden_length | ].
+
+  Lemma allset_length c : length (allset c) = n.
+  Proof. apply bden_length. Qed.
+
+  Definition sub (A B : bset) : Prop := forall x, mem A x -> mem B x.
+
+  Lemma binter_all_r c A : length A = n -> sub A (allset c) -> binter n A (allset c) = A.
+  Proof.
+    intros Hl Hs. apply (bset_ext n); [apply tab_length|exact Hl|]. intros y Hy.
+    rewrite bmem_binter. apply Nat.ltb_lt in Hy. rewrite Hy.
+    destruct (bmem A y) eqn:E; [rewrite (Hs y E)|]; reflexivity.
+  Qed.
+  Lemma binter_all_l c A : length A = n -> sub A (allset c) -> binter n (allset c) A = A.
+  Proof.
+    intros Hl Hs. apply (bset_ext n); [apply tab_length|exact Hl|]. intros y Hy.
+    rewrite bmem_binter. apply Nat.ltb_lt in Hy. rewrite Hy.
+    destruct (bmem A y) eqn:E; [rewrite (Hs y E)|rewrite andb_false_r]; reflexivity.
+  Qed.
+  Lemma binter_bdiff_all c A B : sub A (allset c) ->
+    binter n A (bdiff n (allset c) B) = bdiff n A B.
+  Proof.
+    intros Hs. apply (bset_ext n); try apply tab_length. intros y Hy.
+    rewrite bmem_binter, !bmem_bdiff. apply Nat.ltb_lt in Hy. rewrite Hy.
+    destruct (bmem A y) eqn:E; [rewrite (Hs y E)|]; reflexivity.
+  Qed.
+  Lemma binter_bdiff_all_l c A B : sub A (allset c) ->
+    binter n (bdiff n (allset c) B) A = bdiff n A B.
+  Proof.
+    intros Hs. apply (bset_ext n); try apply tab_length. intros y Hy.
+    rewrite bmem_binter, !bmem_bdiff. apply Nat.ltb_lt in Hy. rewrite Hy.
+    destruct (bmem A y) eqn:E; [rewrite (Hs y E)|]; simpl; try reflexivity.
+    - rewrite andb_true_r. reflexivity.
+    - now rewrite andb_false_r.
+  Qed.
+
+  Lemma den_sub c e : okctx c -> wfs (x_refs c) e -> sub (den W c e) (allset c).
+  Proof. intros Hc Hw x. now apply sub_all. Qed.
+
+  Lemma anc_gen_sub_all c p g A : sub A (allset c) -> sub (anc_gen G p g A) (allset c).
+  Proof.
+    intros Hs x H. apply anc_gen_sub_full in H; auto. revert x H. apply allset_closed.
+    intros y _. apply Hs.
+  Qed.
+
+  Lemma den_None c : den W c ENone = bempty n.
+  Proof.
+    apply (bset_ext n); try apply tab_length. intros y Hy.
+    unfold den, resolve. cbn [res fst snd]. change (bden W (BCommits [])) with (bof_list n []).
+    rewrite bmem_bof_list, bmem_bempty. simpl. now rewrite andb_false_r.
+  Qed.
+
+  (* ---------------------------------------------------------------- unfold_difference *)
+
+  Lemma unfold_difference_sound : sound_post unfold_difference_post.
+  Proof.
+    intros c e e' Hc Hw H. destruct e; try discriminate; cbn in H; inversion H; subst; clear H;
+      cbn [wfs] in Hw; destruct Hw as [Hw1 Hw2].
+    - split; [cbn [wfs]; tauto|].
+      rewrite den_Intersection by (cbn [wfs]; assumption).
+      change (den W c (ENotIn (EAncestors e1 GEN_FULL PR_FULL)))
+        with (bdiff n (allset c) (anc_full G (den W c e1))).
+      change (den W c (EAncestors e2 g p)) with (anc_gen G p g (den W c e2)).
+      change (den W c (ERange e1 e2 g p))
+        with (bdiff n (anc_gen G p g (den W c e2)) (anc_full G (den W c e1))).
+      apply binter_bdiff_all. apply anc_gen_sub_all. now apply den_sub.
+    - split; [cbn [wfs]; tauto|].
+      rewrite den_Intersection by assumption.
+      change (den W c (ENotIn e2)) with (bdiff n (allset c) (den W c e2)).
+      change (den W c (EDifference e1 e2)) with (bdiff n (den W c e1) (den W c e2)).
+      apply binter_bdiff_all. now apply den_sub.
+  Qed.
+
+  (* ---------------------------------------------------------------- fold_redundant_expression *)
+
+  Lemma fr_union a b :
+    fold_redundant_post (EUnion a b) =
+    if is_none b then Some a else if is_none a then Some b
+    else if is_all a then Some EAll else if is_all b then Some EAll else None.
+  Proof. destruct b; destruct a; reflexivity. Qed.
+  Lemma fr_inter a b :
+    fold_redundant_post (EIntersection a b) =
+    if is_none a then Some ENone else if is_none b then Some ENone
+    else if is_all b then Some a else if is_all a then Some b else None.
+  Proof. destruct a; destruct b; reflexivity. Qed.
+
+  Lemma bunion_empty_r A : length A = n -> bunion n A (bempty n) = A.
+  Proof.
+    intros Hl. apply (bset_ext n); [apply tab_length|exact Hl|]. intros y Hy.
+    rewrite bmem_bunion, bmem_bempty, orb_false_r. apply Nat.ltb_lt in Hy. now rewrite Hy.
+  Qed.
+  Lemma bunion_empty_l A : length A = n -> bunion n (bempty n) A = A.
+  Proof.
+    intros Hl. apply (bset_ext n); [apply tab_length|exact Hl|]. intros y Hy.
+    rewrite bmem_bunion, bmem_bempty. apply Nat.ltb_lt in Hy. now rewrite Hy.
+  Qed.
+  Lemma bunion_all_l c A : sub A (allset c) -> bunion n (allset c) A = allset c.
+  Proof.
+    intros Hs. apply (bset_ext n); [apply tab_length|apply allset_length|]. intros y Hy.
+    rewrite bmem_bunion. apply Nat.ltb_lt in Hy. rewrite Hy.
+    destruct (bmem A y) eqn:E; [rewrite (Hs y E)|rewrite orb_false_r]; reflexivity.
+  Qed.
+  Lemma bunion_all_r c A : sub A (allset c) -> bunion n A (allset c) = allset c.
+  Proof.
+    intros Hs. apply (bset_ext n); [apply tab_length|apply allset_length|]. intros y Hy.
+    rewrite bmem_bunion. apply Nat.ltb_lt in Hy. rewrite Hy.
+    destruct (bmem A y) eqn:E; [rewrite (Hs y E)|]; reflexivity.
+  Qed.
+  Lemma binter_empty_l A : binter n (bempty n) A = bempty n.
+  Proof.
+    apply (bset_ext n); try apply tab_length. intros y Hy.
+    rewrite bmem_binter, bmem_bempty. now rewrite andb_false_r.
+  Qed.
+  Lemma binter_empty_r A : binter n A (bempty n) = bempty n.
+  Proof.
+    apply (bset_ext n); try apply tab_length. intros y Hy.
+    rewrite bmem_binter, bmem_bempty. now rewrite !andb_false_r.
+  Qed.
+  Lemma bdiff_all_involutive c A : length A = n -> sub A (allset c) ->
+    bdiff n (allset c) (bdiff n (allset c) A) = A.
+  Proof.
+    intros Hl Hs. apply (bset_ext n); [apply tab_length|exact Hl|]. intros y Hy.
+    rewrite !bmem_bdiff. apply Nat.ltb_lt in Hy. rewrite Hy.
+    destruct (bmem A y) eqn:E; [rewrite (Hs y E)|]; simpl; try reflexivity.
+    destruct (bmem (allset c) y); reflexivity.
+  Qed.
+  Lemma bdiff_all_empty c : bdiff n (allset c) (bempty n) = allset c.
+  Proof.
+    apply (bset_ext n); [apply tab_length|apply allset_length|]. intros y Hy.
+    rewrite bmem_bdiff, bmem_bempty. apply Nat.ltb_lt in Hy. rewrite Hy. simpl.
+    now rewrite andb_true_r.
+  Qed.
+  Lemma bdiff_all_all c : bdiff n (allset c) (allset c) = bempty n.
+  Proof.
+    apply (bset_ext n); try apply tab_length. intros y Hy.
+    rewrite bmem_bdiff, bmem_bempty. destruct (bmem (allset c) y); simpl; now rewrite ?andb_false_r.
+  Qed.
+
+  Lemma is_none_eq e : is_none e = true -> e = ENone.
+  Proof. destruct e; simpl; congruence. Qed.
+  Lemma is_all_eq e : is_all e = true -> e = EAll.
+  Proof. destruct e; simpl; congruence. Qed.
+
+  Lemma fold_redundant_sound : sound_post fold_redundant_post.
+  Proof.
+    intros c e e' Hc Hw H. destruct e; try discriminate.
+    - (* Commits [] *) destruct l; try discriminate. inversion H; subst. split; [exact I|reflexivity].
+    - (* NotIn *) cbn [wfs] in Hw.
+      destruct e; try discriminate; cbn in H; inversion H; subst; clear H.
+      + (* ~none() *) split; [exact I|].
+        change (den W c (ENotIn ENone)) with (bdiff n (allset c) (den W c ENone)).
+        rewrite den_None. symmetry. apply bdiff_all_empty.
+      + (* ~all() *) split; [exact I|].
+        change (den W c (ENotIn EAll)) with (bdiff n (allset c) (allset c)).
+        rewrite den_None. symmetry. apply bdiff_all_all.
+      + (* ~~x *) split; [exact Hw|].
+        change (den W c (ENotIn (ENotIn e'))) with (bdiff n (allset c) (bdiff n (allset c) (den W c e'))).
+        symmetry. apply bdiff_all_involutive; [apply den_length|now apply den_sub].
+    - (* Union *) rewrite fr_union in H. cbn [wfs] in Hw. destruct Hw as [Hw1 Hw2].
+      change (den W c (EUnion e1 e2)) with (bunion n (den W c e1) (den W c e2)).
+      destruct (is_none e2) eqn:E2.
+      { inversion H; subst. apply is_none_eq in E2. subst. split; auto.
+        rewrite den_None. symmetry. apply bunion_empty_r, den_length. }
+      destruct (is_none e1) eqn:E1.
+      { inversion H; subst. apply is_none_eq in E1. subst. split; auto.
+        rewrite den_None. symmetry. apply bunion_empty_l, den_length. }
+      destruct (is_all e1) eqn:A1.
+      { inversion H; subst. apply is_all_eq in A1. subst. split; [exact I|].
+        symmetry. apply bunion_all_l. now apply den_sub. }
+      destruct (is_all e2) eqn:A2; [|discriminate].
+      inversion H; subst. apply is_all_eq in A2. subst. split; [exact I|].
+      symmetry. apply bunion_all_r. now apply den_sub.
+    - (* Intersection *) rewrite fr_inter in H. cbn [wfs] in Hw. destruct Hw as [Hw1 Hw2].
+      rewrite den_Intersection by assumption.
+      destruct (is_none e1) eqn:E1.
+      { inversion H; subst. apply is_none_eq in E1. subst. split; [exact I|].
+        rewrite den_None. symmetry. apply binter_empty_l. }
+      destruct (is_none e2) eqn:E2.
+      { inversion H; subst. apply is_none_eq in E2. subst. split; [exact I|].
+        rewrite den_None. symmetry. apply binter_empty_r. }
+      destruct (is_all e2) eqn:A2.
+      { inversion H; subst. apply is_all_eq in A2. subst. split; auto.
+        symmetry. apply binter_all_r; [apply den_length|now apply den_sub]. }
+      destruct (is_all e1) eqn:A1; [|discriminate].
+      inversion H; subst. apply is_all_eq in A1. subst. split; auto.
+      symmetry. apply binter_all_l; [apply den_length|now apply den_sub].
+  Qed.
+
+  (* ---------------------------------------------------------------- fold_generation *)
+
+  Lemma nrange_eqb_eq a b : nrange_eqb a b = true -> a = b.
+  Proof.
+    destruct a, b. unfold nrange_eqb. cbn [fst snd]. rewrite andb_true_iff, !N.eqb_eq.
+    intros [-> ->]. reflexivity.
+  Qed.
+
+  (** Below [u32::MAX] the window test is the plain range test. *)
+  Lemma in_gen_plain g k : (N.of_nat k < U32MAX)%N ->
+    (in_gen g k <-> (fst g <= N.of_nat k < snd g)%N).
+  Proof.
+    intros Hk. unfold in_gen, gen_end. destruct (gen_is_full g) eqn:E.
+    - tauto.
+    - unfold U32MAX in *. lia.
+  Qed.
+
+  Lemma k_small k : k < n -> (N.of_nat k < U32MAX)%N.
+  Proof. unfold small in Hsm. fold G in Hsm. fold n in Hsm. lia. Qed.
+
+  (** Sums of members of two generation windows (saturating [u64] arithmetic). *)
+  Lemma add_generation_spec g1 g2 k : k < n ->
+    (in_gen (add_generation g1 g2) k <->
+     exists k1 k2, k = k2 + k1 /\ in_gen g1 k1 /\ in_gen g2 k2).
+  Proof.
+    intros Hk. assert (Hks := k_small k Hk).
+    rewrite in_gen_plain by assumption. unfold add_generation, gen_empty, sat_add.
+    destruct g1 as [a1 b1], g2 as [a2 b2]. cbn [fst snd].
+    destruct (N.leb_spec b1 a1) as [He1|He1]; [|destruct (N.leb_spec b2 a2) as [He2|He2]]; cbn [orb fst snd].
+    - split; [lia|]. intros [k1 [k2 [-> [H1 H2]]]].
+      apply in_gen_plain in H1; [cbn [fst snd] in H1; lia|lia].
+    - split; [lia|]. intros [k1 [k2 [-> [H1 H2]]]].
+      apply in_gen_plain in H2; [cbn [fst snd] in H2; lia|lia].
+    - unfold U64MAX. unfold U32MAX in Hks. split.
+      + intros Hr.
+        (* k1 := min (b1-1) (k - a2) *)
+        set (k1 := N.to_nat (N.min (b1 - 1) (N.of_nat k - a2))).
+        exists k1, (k - k1). subst k1.
+        split; [lia|]. split; apply in_gen_plain; cbn [fst snd]; unfold U32MAX; lia.
+      + intros [k1 [k2 [-> [H1 H2]]]].
+        apply in_gen_plain in H1; [|unfold U32MAX; lia].
+        apply in_gen_plain in H2; [|unfold U32MAX; lia]. cbn [fst snd] in *. lia.
+  Qed.
+
+  Lemma anc_gen_compose p g1 g2 S y :
+    mem (anc_gen G p g1 (anc_gen G p g2 S)) y <->
+    exists k1 k2 x, in_gen g1 k1 /\ in_gen g2 k2 /\ x < n /\ mem S x /\
+                    reach (edges G p) (k2 + k1) x y.
+  Proof.
+    rewrite anc_gen_spec by assumption. split.
+    - intros [k1 [z [H1 [Hz [Hm Hp]]]]]. apply anc_gen_spec in Hm; auto.
+      destruct Hm as [k2 [x [H2 [Hx [Hmx Hpx]]]]].
+      exists k1, k2, x. repeat split; auto; try apply H1; try apply H2.
+      eapply rpath_app; eassumption.
+    - intros [k1 [k2 [x [H1 [H2 [Hx [Hm Hp]]]]]]].
+      apply rpath_split in Hp. destruct Hp as [z [Hp1 Hp2]].
+      assert (Hz : z < n).
+      { apply (reach_le _ (wfE_edges G p Hwf)) in Hp1. fold n. lia. }
+      exists k1, z. split; [exact H1|]. split; [exact Hz|]. split; [|exact Hp2].
+      apply anc_gen_spec; auto. exists k2, x. auto.
+  Qed.
+
+  Lemma anc_gen_add p g1 g2 S :
+    anc_gen G p g1 (anc_gen G p g2 S) = anc_gen G p (add_generation g1 g2) S.
+  Proof.
+    apply (bset_eq n); try apply tab_length. intros y.
+    rewrite anc_gen_compose, anc_gen_spec by assumption. split.
+    - intros [k1 [k2 [x [H1 [H2 [Hx [Hm Hp]]]]]]]. exists (k2 + k1), x.
+      split; [|auto].
+      apply add_generation_spec; [|exists k1, k2; auto].
+      apply (reach_le _ (wfE_edges G p Hwf)) in Hp. fold n. lia.
+    - intros [k [x [Hg [Hx [Hm Hp]]]]].
+      assert (Hk : k < n) by (apply (reach_le _ (wfE_edges G p Hwf)) in Hp; fold n; lia).
+      apply add_generation_spec in Hg; auto. destruct Hg as [k1 [k2 [-> [H1 H2]]]].
+      exists k1, k2, x. auto.
+  Qed.
+
+  Lemma desc_gen_add c g1 g2 R :
+    binter n (allset c) (desc_gen G g1 (binter n (allset c) (desc_gen G g2 R)))
+    = binter n (allset c) (desc_gen G (add_generation g1 g2) R).
+  Proof.
+    apply (bset_eq n); try apply tab_length. intros x.
+    rewrite !bmem_binter, !andb_true_iff, !desc_gen_spec by assumption. split.
+    - intros [Hx [Ha [_ [k1 [z [H1 [Hm Hp]]]]]]]. repeat split; auto; try (apply Nat.ltb_lt in Hx; exact Hx).
+      rewrite bmem_binter, !andb_true_iff, desc_gen_spec in Hm by assumption.
+      destruct Hm as [_ [_ [_ [k2 [r [H2 [Hmr Hpr]]]]]]].
+      exists (k1 + k2), r. split; [|split; [exact Hmr|eapply rpath_app; eassumption]].
+      assert (Hle1 := reach_le _ (wfE_parents G Hwf) _ _ _ Hp).
+      assert (Hle2 := reach_le _ (wfE_parents G Hwf) _ _ _ Hpr).
+      apply Nat.ltb_lt in Hx.
+      apply add_generation_spec; [fold n in Hx; lia|]. exists k1, k2. split; [lia|auto].
+    - intros [Hx [Ha [Hxn [k [r [Hg [Hm Hp]]]]]]].
+      assert (Hk : k < n) by (apply (reach_le _ (wfE_parents G Hwf)) in Hp; fold n in Hxn; lia).
+      apply add_generation_spec in Hg; auto. destruct Hg as [k1 [k2 [-> [H1 H2]]]].
+      replace (k2 + k1) with (k1 + k2) in Hp by lia.
+      apply rpath_split in Hp. destruct Hp as [z [Hp1 Hp2]].
+      assert (Hz : z < n) by (apply (reach_le _ (wfE_parents G Hwf)) in Hp1; fold n in Hxn; lia).
+      repeat split; auto. exists k1, z. split; [exact H1|]. split; [|exact Hp1].
+      rewrite bmem_binter, !andb_true_iff, desc_gen_spec by assumption.
+      split; [apply Nat.ltb_lt; exact Hz|]. split.
+      + (* z is an ancestor of x, x is in all(): all() is closed under ancestors *)
+        apply (allset_closed c (bsingle n x)).
+        * intros w Hw. rewrite bmem_bsingle, andb_true_iff, Nat.eqb_eq. intros [_ ->]. exact Ha.
+        * apply anc_full_spec; auto. exists k1, x. split; [exact Hxn|]. split; [|exact Hp1].
+          rewrite bmem_bsingle, Nat.eqb_refl, andb_true_r. exact Hx.
+      + split; [exact Hz|]. exists k2, r. auto.
+  Qed.
+
+  Lemma fold_generation_sound : sound_post fold_generation_post.
+  Proof.
+    intros c e e' Hc Hw H. destruct e; try discriminate.
+    - (* Ancestors (Ancestors h g2 p2) g1 p1 *)
+      destruct e; try discriminate. cbn in H.
+      destruct (nrange_eqb p0 p) eqn:Ep; [|discriminate]. inversion H; subst; clear H.
+      apply nrange_eqb_eq in Ep. subst p0. split; [exact Hw|].
+      change (den W c (EAncestors (EAncestors e g0 p) g p))
+        with (anc_gen G p g (anc_gen G p g0 (den W c e))).
+      change (den W c (EAncestors e (add_generation g g0) p))
+        with (anc_gen G p (add_generation g g0) (den W c e)).
+      symmetry. apply anc_gen_add.
+    - (* Descendants (Descendants r g2) g1 *)
+      destruct e; try discriminate. cbn in H. inversion H; subst; clear H.
+      split; [exact Hw|].
+      change (den W c (EDescendants (EDescendants e g0) g))
+        with (binter n (allset c) (desc_gen G g (binter n (allset c) (desc_gen G g0 (den W c e))))).
+      change (den W c (EDescendants e (add_generation g g0)))
+        with (binter n (allset c) (desc_gen G (add_generation g g0) (den W c e))).
+      symmetry. apply desc_gen_add.
+  Qed.
+
+  (* ---------------------------------------------------------------- flatten / sort *)
+
+  Ltac bool_sets :=
+    apply (bset_ext n); [apply tab_length | apply tab_length |];
+    let y := fresh "y" in let Hy := fresh "Hy" in
+    intros y Hy;
+    repeat (rewrite bmem_binter || rewrite bmem_bunion || rewrite bmem_bdiff);
+    destruct (y <? n);
+    repeat match goal with |- context [bmem ?A y] => destruct (bmem A y) end; reflexivity.
+
+  Lemma binter_assoc A B C : binter n (binter n A B) C = binter n A (binter n B C).
+  Proof. bool_sets. Qed.
+  Lemma binter_comm A B : binter n A B = binter n B A.
+  Proof. bool_sets. Qed.
+  Lemma binter_swap A B C : binter n (binter n A B) C = binter n (binter n A C) B.
+  Proof. bool_sets. Qed.
+
+  Lemma flatten_spec c : okctx c -> forall e2 e1 e',
+    wfs (x_refs c) e1 -> wfs (x_refs c) e2 -> flatten e1 e2 = Some e' ->
+    wfs (x_refs c) e' /\ den W c e' = binter n (den W c e1) (den W c e2).
+  Proof.
+    intros Hc. induction e2; intros e1 e' Hw1 Hw2 H; try discriminate.
+    cbn [flatten] in H. inversion H; subst; clear H. cbn [wfs] in Hw2. destruct Hw2 as [Hwa Hwb].
+    assert (HX : wfs (x_refs c) (opt_or (flatten e1 e2_1) (EIntersection e1 e2_1)) /\
+                 den W c (opt_or (flatten e1 e2_1) (EIntersection e1 e2_1))
+                 = binter n (den W c e1) (den W c e2_1)).
+    { destruct (flatten e1 e2_1) as [x|] eqn:E; cbn [opt_or].
+      - apply IHe2_1; auto.
+      - split; [cbn [wfs]; tauto|]. apply den_Intersection; auto. }
+    destruct HX as [HXw HXd]. split; [cbn [wfs]; tauto|].
+    rewrite den_Intersection by assumption. rewrite HXd.
+    rewrite (den_Intersection c e2_1 e2_2) by assumption. apply binter_assoc.
+  Qed.
+
+  Lemma flatten_intersections_sound : sound_post flatten_intersections_post.
+  Proof.
+    intros c e e' Hc Hw H. destruct e; try discriminate. cbn in H. cbn [wfs] in Hw.
+    destruct Hw as [Hw1 Hw2]. destruct (flatten_spec c Hc e2 e1 e' Hw1 Hw2 H) as [Hw' Hd].
+    split; auto. rewrite Hd. symmetry. now apply den_Intersection.
+  Qed.
+
+  Lemma sort_helper_spec c : okctx c -> forall base expression kk e',
+    wfs (x_refs c) base -> wfs (x_refs c) expression ->
+    sort_helper base expression kk = Some e' ->
+    wfs (x_refs c) e' /\ den W c e' = binter n (den W c base) (den W c expression).
+  Proof.
+    intros Hc. induction base; intros expression kk e' Hwb Hwe H; cbn [sort_helper] in H;
+      try (destruct (kk <? _)%N; [|discriminate]; inversion H; subst; clear H;
+           split; [cbn [wfs]; auto|]; rewrite den_Intersection by assumption; apply binter_comm).
+    (* base = i1 & i2 *)
+    destruct (kk <? sort_key base2)%N; [|discriminate]. inversion H; subst; clear H.
+    cbn [wfs] in Hwb. destruct Hwb as [Hw1 Hw2].
+    assert (HX : wfs (x_refs c) (opt_or (sort_helper base1 expression kk) (EIntersection base1 expression)) /\
+                 den W c (opt_or (sort_helper base1 expression kk) (EIntersection base1 expression))
+                 = binter n (den W c base1) (den W c expression)).
+    { destruct (sort_helper base1 expression kk) as [x|] eqn:E; cbn [opt_or].
+      - eapply IHbase1; eassumption.
+      - split; [cbn [wfs]; tauto|]. apply den_Intersection; auto. }
+    destruct HX as [HXw HXd]. split; [cbn [wfs]; tauto|].
+    rewrite den_Intersection by assumption. rewrite HXd.
+    rewrite (den_Intersection c base1 base2) by assumption. apply binter_swap.
+  Qed.
+
+  Lemma sort_negations_sound : sound_post sort_negations_post.
+  Proof.
+    intros c e e' Hc Hw H. destruct e; try discriminate. cbn in H. cbn [wfs] in Hw.
+    destruct Hw as [Hw1 Hw2].
+    destruct (sort_helper_spec c Hc e1 e2 _ e' Hw1 Hw2 H) as [Hw' Hd].
+    split; auto. rewrite Hd. symmetry. now apply den_Intersection.
+  Qed.
+
+  (* ---------------------------------------------------------------- ancestors_to_heads *)
+
+  Lemma anc_gen_window_ext p g g' S :
+    (forall k, k < n -> (in_gen g k <-> in_gen g' k)) -> anc_gen G p g S = anc_gen G p g' S.
+  Proof.
+    intros H. apply (bset_eq n); try apply tab_length. intros y.
+    rewrite !anc_gen_spec by assumption.
+    split; intros [k [x [Hg [Hx [Hm Hp]]]]]; exists k, x; (split; [|auto]);
+      apply H; auto; apply (reach_le _ (wfE_edges G p Hwf)) in Hp; fold n; lia.
+  Qed.
+
+  Lemma sat_add_unfold a b : sat_add a b = N.min (a + b) 18446744073709551615%N.
+  Proof. reflexivity. Qed.
+
+  Lemma gen_is_full_eq g : gen_is_full g = true -> g = GEN_FULL.
+  Proof. apply nrange_eqb_eq. Qed.
+
+  Lemma a2hp_spec c e h p : a2hp e = Some (h, p) -> wfs (x_refs c) e ->
+    wfs (x_refs c) h /\ den W c e = anc_gen G p GEN_FULL (den W c h).
+  Proof.
+    intros H Hw. destruct e; try discriminate. cbn [a2hp] in H. cbn [wfs] in Hw.
+    destruct (gen_is_full g) eqn:Ef.
+    - inversion H; subst. apply gen_is_full_eq in Ef. subst g. split; [exact Hw|reflexivity].
+    - destruct (snd g =? U64MAX)%N eqn:Eu; [|discriminate]. inversion H; subst; clear H.
+      apply N.eqb_eq in Eu. split; [exact Hw|].
+      change (den W c (EAncestors e g p)) with (anc_gen G p g (den W c e)).
+      change (den W c (EAncestors e (fst g, sat_add (fst g) 1) p))
+        with (anc_gen G p (fst g, sat_add (fst g) 1) (den W c e)).
+      rewrite anc_gen_add. apply anc_gen_window_ext. intros k Hk.
+      rewrite add_generation_spec by assumption.
+      assert (Hks := k_small k Hk). destruct g as [a b]. cbn [fst snd] in *. subst b.
+      rewrite in_gen_plain by assumption. cbn [fst snd]. split.
+      + intros Ha. exists (k - N.to_nat a), (N.to_nat a).
+        split; [unfold U32MAX, U64MAX in *; lia|].
+        split; (apply in_gen_plain; [unfold U32MAX, U64MAX in *; lia|]).
+        * unfold GEN_FULL. cbn [fst snd]. unfold U32MAX, U64MAX in *. lia.
+        * cbn [fst snd]. rewrite sat_add_unfold. unfold U32MAX, U64MAX in *. lia.
+      + intros [k1 [k2 [-> [H1 H2]]]].
+        apply in_gen_plain in H2; [|unfold U32MAX in *; lia].
+        cbn [fst snd] in H2. rewrite sat_add_unfold in H2. unfold U64MAX, U32MAX in *. lia.
+  Qed.
+
+  Lemma a2h_spec c e h : a2h e = Some h -> wfs (x_refs c) e ->
+    wfs (x_refs c) h /\ den W c e = anc_full G (den W c h).
+  Proof.
+    unfold a2h. intros H Hw. destruct (a2hp e) as [[h' p]|] eqn:E; [|discriminate].
+    destruct (nrange_eqb p PR_FULL) eqn:Ep; [|discriminate]. inversion H; subst.
+    apply nrange_eqb_eq in Ep. subst p. exact (a2hp_spec c e h PR_FULL E Hw).
+  Qed.
+
+  Lemma anc_full_union A B :
+    anc_full G (bunion n A B) = bunion n (anc_full G A) (anc_full G B).
+  Proof.
+    apply (bset_eq n); try apply tab_length. intros y.
+    rewrite bmem_bunion, andb_true_iff, orb_true_iff, !anc_full_spec by assumption. split.
+    - intros [k [x [Hx [Hm Hp]]]]. rewrite bmem_bunion, andb_true_iff, orb_true_iff in Hm.
+      split.
+      + apply Nat.ltb_lt. apply (reach_le _ (wfE_parents G Hwf)) in Hp. fold n in Hx. fold n. lia.
+      + destruct Hm as [_ [Hm|Hm]]; [left|right]; exists k, x; auto.
+    - intros [_ [[k [x [Hx [Hm Hp]]]]|[k [x [Hx [Hm Hp]]]]]]; exists k, x; (split; [exact Hx|]);
+        (split; [|exact Hp]); rewrite bmem_bunion, andb_true_iff, orb_true_iff;
+        (split; [apply Nat.ltb_lt; exact Hx|]); auto.
+  Qed.
+
+  (* ---------------------------------------------------------------- fold_ancestors_union *)
+
+  Lemma union_ancestors_spec c a b e' : union_ancestors a b = Some e' ->
+    wfs (x_refs c) a -> wfs (x_refs c) b ->
+    wfs (x_refs c) e' /\ den W c e' = bunion n (den W c a) (den W c b).
+  Proof.
+    unfold union_ancestors. intros H Hwa Hwb.
+    destruct (a2h a) as [h1|] eqn:E1; [|discriminate].
+    destruct (a2h b) as [h2|] eqn:E2; [|discriminate]. inversion H; subst; clear H.
+    destruct (a2h_spec c a h1 E1 Hwa) as [Hw1 Hd1].
+    destruct (a2h_spec c b h2 E2 Hwb) as [Hw2 Hd2].
+    split; [cbn [wfs]; tauto|].
+    change (den W c (EAncestors (EUnion h1 h2) GEN_FULL PR_FULL))
+      with (anc_full G (bunion n (den W c h1) (den W c h2))).
+    rewrite anc_full_union. now rewrite Hd1, Hd2.
+  Qed.
+
+  Lemma fold_ancestors_union_sound : sound_post fold_ancestors_union_post.
+  Proof.
+    intros c e e' Hc Hw H. destruct e; try discriminate.
+    - (* Union *) cbn in H. cbn [wfs] in Hw. destruct Hw as [Hw1 Hw2].
+      exact (union_ancestors_spec c e1 e2 e' H Hw1 Hw2).
+    - (* ~::x & ~::y *)
+      destruct e1; try discriminate. destruct e2; try discriminate. cbn in H.
+      cbn [wfs] in Hw. destruct Hw as [Hw1 Hw2].
+      destruct (union_ancestors e1 e2) as [u|] eqn:E; [|discriminate]. inversion H; subst; clear H.
+      destruct (union_ancestors_spec c e1 e2 u E Hw1 Hw2) as [Hwu Hdu].
+      split; [exact Hwu|].
+      rewrite den_Intersection by (try exact Hc; exact Hw1).
+      change (den W c (ENotIn u)) with (bdiff n (allset c) (den W c u)).
+      change (den W c (ENotIn e1)) with (bdiff n (allset c) (den W c e1)).
+      change (den W c (ENotIn e2)) with (bdiff n (allset c) (den W c e2)).
+      rewrite Hdu. bool_sets.
+  Qed.
+
+  (* ---------------------------------------------------------------- internalize_filter *)
+
+  Lemma gf_spec c x f : okctx c -> get_filter x = Some f -> wfs (x_refs c) x ->
+    wfs (x_refs c) f /\ den W c x = binter n (allset c) (den W c f).
+  Proof.
+    intros Hc H Hw. destruct x; try discriminate; cbn in H; inversion H; subst; clear H.
+    - split; [exact I|]. rewrite den_Filter_raw. bool_sets.
+    - split; [exact Hw|]. now apply den_AsFilter.
+  Qed.
+
+  Lemma den_Present c x : den W c (EPresent x) = den W c x.
+  Proof. reflexivity. Qed.
+  Lemma den_NotIn c x : den W c (ENotIn x) = bdiff n (allset c) (den W c x).
+  Proof. reflexivity. Qed.
+  Lemma den_Union c a b : den W c (EUnion a b) = bunion n (den W c a) (den W c b).
+  Proof. reflexivity. Qed.
+  Lemma den_Difference c a b : den W c (EDifference a b) = bdiff n (den W c a) (den W c b).
+  Proof. reflexivity. Qed.
+
+  Lemma union_filter_l c F E : sub E (allset c) ->
+    bunion n (binter n (allset c) F) E = binter n (allset c) (bunion n F E).
+  Proof.
+    intros Hs. apply (bset_ext n); try apply tab_length. intros y Hy.
+    rewrite bmem_bunion, !bmem_binter, bmem_bunion. destruct (y <? n); [|reflexivity].
+    destruct (bmem E y) eqn:EE; [rewrite (Hs y EE)|];
+      destruct (bmem (allset c) y), (bmem F y); reflexivity.
+  Qed.
+  Lemma union_filter_r c F E : sub E (allset c) ->
+    bunion n E (binter n (allset c) F) = binter n (allset c) (bunion n E F).
+  Proof.
+    intros Hs. apply (bset_ext n); try apply tab_length. intros y Hy.
+    rewrite bmem_bunion, !bmem_binter, bmem_bunion. destruct (y <? n); [|reflexivity].
+    destruct (bmem E y) eqn:EE; [rewrite (Hs y EE)|];
+      destruct (bmem (allset c) y), (bmem F y); reflexivity.
+  Qed.
+
+  Lemma internalize_filter_sound : sound_post internalize_filter_post.
+  Proof.
+    intros c e e' Hc Hw H. destruct e; try discriminate; cbn [internalize_filter_post] in H;
+      cbn [wfs] in Hw.
+    - (* Present *)
+      destruct (get_filter e) as [f|] eqn:E; [|discriminate]. inversion H; subst; clear H.
+      destruct (gf_spec c e f Hc E Hw) as [Hwf' Hd]. split; [exact Hwf'|].
+      rewrite den_AsFilter by assumption. rewrite !den_Present. exact (eq_sym Hd).
+    - (* NotIn *)
+      destruct (get_filter e) as [f|] eqn:E; [|discriminate]. inversion H; subst; clear H.
+      destruct (gf_spec c e f Hc E Hw) as [Hwf' Hd]. split; [exact Hwf'|].
+      rewrite den_AsFilter by assumption. rewrite !den_NotIn, Hd. bool_sets.
+    - (* Union *)
+      destruct Hw as [Hw1 Hw2]. rewrite den_Union.
+      destruct (get_filter e1) as [f1|] eqn:E1; destruct (get_filter e2) as [f2|] eqn:E2;
+        try discriminate; inversion H; subst; clear H; cbn [opt_or].
+      + destruct (gf_spec c e1 f1 Hc E1 Hw1) as [Hf1 Hd1].
+        destruct (gf_spec c e2 f2 Hc E2 Hw2) as [Hf2 Hd2].
+        split; [cbn [wfs]; tauto|]. rewrite den_AsFilter by (try exact Hc; cbn [wfs]; tauto).
+        rewrite den_Union, Hd1, Hd2. bool_sets.
+      + destruct (gf_spec c e1 f1 Hc E1 Hw1) as [Hf1 Hd1].
+        split; [cbn [wfs]; tauto|]. rewrite den_AsFilter by (try exact Hc; cbn [wfs]; tauto).
+        rewrite den_Union, Hd1. symmetry. apply union_filter_l. now apply den_sub.
+      + destruct (gf_spec c e2 f2 Hc E2 Hw2) as [Hf2 Hd2].
+        split; [cbn [wfs]; tauto|]. rewrite den_AsFilter by (try exact Hc; cbn [wfs]; tauto).
+        rewrite den_Union, Hd2. symmetry. apply union_filter_r. now apply den_sub.
+    - (* Intersection *)
+      destruct Hw as [Hw1 Hw2]. rewrite (den_Intersection c e1 e2) by assumption.
+      destruct (get_filter e1) as [f1|] eqn:E1; destruct (get_filter e2) as [f2|] eqn:E2.
+      + inversion H; subst; clear H.
+        destruct (gf_spec c e1 f1 Hc E1 Hw1) as [Hf1 Hd1].
+        destruct (gf_spec c e2 f2 Hc E2 Hw2) as [Hf2 Hd2].
+        split; [cbn [wfs]; tauto|]. rewrite den_AsFilter by (try exact Hc; cbn [wfs]; tauto).
+        rewrite den_Intersection by assumption. rewrite Hd1, Hd2. bool_sets.
+      + inversion H; subst; clear H. split; [cbn [wfs]; tauto|].
+        rewrite den_Intersection by assumption. apply binter_comm.
+      + destruct e1; try discriminate. cbn [wfs] in Hw1. destruct Hw1 as [Hwa Hwb].
+        destruct (get_filter e1_2) as [f1b|] eqn:E1b; [|discriminate].
+        cbn [option_map] in H. inversion H; subst; clear H.
+        destruct (gf_spec c e1_2 f1b Hc E1b Hwb) as [Hfb Hdb].
+        destruct (gf_spec c e2 f2 Hc E2 Hw2) as [Hf2 Hd2].
+        split; [cbn [wfs]; tauto|].
+        rewrite den_Intersection by assumption.
+        rewrite den_AsFilter by (try exact Hc; cbn [wfs]; tauto).
+        rewrite (den_Intersection c f1b f2) by assumption.
+        rewrite (den_Intersection c e1_1 e1_2) by assumption.
+        rewrite Hdb, Hd2. bool_sets.
+      + destruct e1; try discriminate. cbn [wfs] in Hw1. destruct Hw1 as [Hwa Hwb].
+        destruct (get_filter e1_2) as [f1b|] eqn:E1b; [|discriminate].
+        cbn [option_map] in H. inversion H; subst; clear H.
+        split; [cbn [wfs]; tauto|].
+        rewrite den_Intersection by (try exact Hc; cbn [wfs]; tauto).
+        rewrite (den_Intersection c e1_1 e2) by assumption.
+        rewrite (den_Intersection c e1_1 e1_2) by assumption.
+        apply binter_swap.
+  Qed.
+
+  (* ---------------------------------------------------------------- fold_difference *)
+
+  Lemma to_difference_range_spec c e x r : to_difference_range e x = Some r ->
+    wfs (x_refs c) e -> wfs (x_refs c) x ->
+    wfs (x_refs c) r /\ den W c r = bdiff n (den W c e) (den W c x).
+  Proof.
+    intros H Hwe Hwx. destruct e; try discriminate. cbn [to_difference_range] in H.
+    destruct (a2h x) as [roots|] eqn:E; [|discriminate]. inversion H; subst; clear H.
+    destruct (a2h_spec c x roots E Hwx) as [Hwr Hd]. cbn [wfs] in Hwe.
+    split; [cbn [wfs]; tauto|]. rewrite Hd. reflexivity.
+  Qed.
+
+  Lemma to_difference_spec c e x : wfs (x_refs c) e -> wfs (x_refs c) x ->
+    wfs (x_refs c) (to_difference e x) /\
+    den W c (to_difference e x) = bdiff n (den W c e) (den W c x).
+  Proof.
+    intros Hwe Hwx. unfold to_difference.
+    destruct (to_difference_range e x) as [r|] eqn:E; cbn [opt_or].
+    - exact (to_difference_range_spec c e x r E Hwe Hwx).
+    - split; [cbn [wfs]; tauto|reflexivity].
+  Qed.
+
+  Lemma fold_difference_char e1 e2 e' :
+    fold_difference_post (EIntersection e1 e2) = Some e' ->
+    (exists x, e2 = ENotIn x /\ e' = to_difference e1 x) \/
+    (exists x, e1 = ENotIn x /\ e' = to_difference e2 x).
+  Proof.
+    cbn [fold_difference_post]. destruct e2; try discriminate;
+      try (intros H; inversion H; left; eexists; split; reflexivity);
+      destruct e1; try discriminate; intros H; inversion H; right; eexists; split; reflexivity.
+  Qed.
+
+  Lemma fold_difference_sound : sound_post fold_difference_post.
+  Proof.
+    intros c e e' Hc Hw H. destruct e; try discriminate. cbn [wfs] in Hw. destruct Hw as [Hw1 Hw2].
+    rewrite (den_Intersection c e1 e2) by assumption.
+    destruct (fold_difference_char e1 e2 e' H) as [[x [-> ->]]|[x [-> ->]]].
+    - cbn [wfs] in Hw2. destruct (to_difference_spec c e1 x Hw1 Hw2) as [Hw' Hd].
+      split; [exact Hw'|]. rewrite Hd, den_NotIn. symmetry. apply binter_bdiff_all. now apply den_sub.
+    - cbn [wfs] in Hw1. destruct (to_difference_spec c e2 x Hw2 Hw1) as [Hw' Hd].
+      split; [exact Hw'|]. rewrite Hd, den_NotIn. symmetry. apply binter_bdiff_all_l. now apply den_sub.
+  Qed.
+
+  (* ---------------------------------------------------------------- fold_not_in_ancestors *)
+
+  Lemma fold_not_in_ancestors_sound : sound_post fold_not_in_ancestors_post.
+  Proof.
+    intros c e e' Hc Hw H. destruct e; try discriminate. cbn [fold_not_in_ancestors_post] in H.
+    cbn [wfs] in Hw. destruct e; try discriminate.
+    destruct (to_difference_range_spec c (EAncestors EVisibleHeadsOrReferenced GEN_FULL PR_FULL)
+                (EAncestors e g p) e' H I Hw) as [Hw' Hd].
+    split; [exact Hw'|]. rewrite Hd, den_NotIn. reflexivity.
+  Qed.
+
+  (* ---------------------------------------------------------------- fold_heads_range *)
+
+  Lemma anc_full_empty : anc_full G (bempty n) = bempty n.
+  Proof.
+    apply (bset_eq n); try apply tab_length. intros y. rewrite anc_full_spec by assumption.
+    rewrite bmem_bempty. split; [|discriminate].
+    intros [k [x [_ [Hm _]]]]. rewrite bmem_bempty in Hm. discriminate.
+  Qed.
+
+  Lemma bdiff_empty_r A : length A = n -> bdiff n A (bempty n) = A.
+  Proof.
+    intros Hl. apply (bset_ext n); [apply tab_length|exact Hl|]. intros y Hy.
+    rewrite bmem_bdiff, bmem_bempty. apply Nat.ltb_lt in Hy. rewrite Hy. simpl. now rewrite andb_true_r.
+  Qed.
+
+  Lemma range_set_none c h p : range_set c ENone h p = anc_gen G p GEN_FULL (den W c h).
+  Proof.
+    unfold range_set. rewrite den_None, anc_full_empty. apply bdiff_empty_r, tab_length.
+  Qed.
+
+  Lemma range_set_vr c r :
+    range_set c r EVisibleHeadsOrReferenced PR_FULL = bdiff n (allset c) (anc_full G (den W c r)).
+  Proof. reflexivity. Qed.
+
+  (** Every member of a set lies below one of the set's heads. *)
+  Lemma below_a_head S : forall m x, n - x <= m -> x < n -> mem S x ->
+    exists k h, mem (heads G S) h /\ reach (parents G) k h x.
+  Proof.
+    induction m; intros x Hm Hx HS; [lia|].
+    destruct (bmem (heads G S) x) eqn:E.
+    - exists 0, x. split; auto. constructor.
+    - unfold heads in E. rewrite bmem_bdiff in E. fold n in E.
+      apply Nat.ltb_lt in Hx. rewrite Hx, HS in E. simpl in E. apply negb_false_iff in E.
+      apply anc_gen_spec in E; auto. destruct E as [k [y [Hg [Hy [HSy Hp]]]]].
+      assert (Hle := reach_le _ (wfE_edges G PR_FULL Hwf) _ _ _ Hp).
+      apply (in_gen_proper G) in Hg; auto; [|fold n; lia].
+      apply Nat.ltb_lt in Hx.
+      destruct (IHm y ltac:(fold n in Hy; lia) Hy HSy) as [k' [h [Hh Hph]]].
+      exists (k' + k), h. split; auto. eapply rpath_app; [exact Hph|].
+      now apply reach_full_parents.
+  Qed.
+
+  Lemma anc_full_heads S : anc_full G (heads G S) = anc_full G S.
+  Proof.
+    apply (bset_eq n); try apply tab_length. intros y. rewrite !anc_full_spec by assumption. split.
+    - intros [k [x [Hx [Hm Hp]]]]. apply heads_sub in Hm. exists k, x. auto.
+    - intros [k [x [Hx [Hm Hp]]]].
+      destruct (below_a_head S n x ltac:(lia) Hx Hm) as [k' [h [Hh Hph]]].
+      exists (k' + k), h. split.
+      + apply bmem_lt in Hh. now rewrite heads_length in Hh.
+      + split; auto. eapply rpath_app; eassumption.
+  Qed.
+
+  Definition fr_H (fr : frange) : expr := fst (opt_or (fr_hp fr) (EVisibleHeadsOrReferenced, PR_FULL)).
+  Definition fr_P (fr : frange) : nrange := snd (opt_or (fr_hp fr) (EVisibleHeadsOrReferenced, PR_FULL)).
+  Definition fr_den (c : vctx) (fr : frange) : bset :=
+    binter n (range_set c (fr_roots fr) (fr_H fr) (fr_P fr)) (den W c (fr_filter fr)).
+  Definition fr_wfs (r : list nat) (fr : frange) : Prop :=
+    wfs r (fr_roots fr) /\ wfs r (fr_H fr) /\ wfs r (fr_filter fr).
+
+  Lemma fr_add_filter_spec c fr e : okctx c -> fr_wfs (x_refs c) fr -> wfs (x_refs c) e ->
+    fr_wfs (x_refs c) (fr_add_filter fr e) /\
+    fr_den c (fr_add_filter fr e) = binter n (fr_den c fr) (den W c e).
+  Proof.
+    intros Hc [Hwr [Hwh Hwf']] Hwe. unfold fr_add_filter, fr_den, fr_wfs, fr_H, fr_P. cbn [fr_roots fr_hp fr_filter].
+    fold (fr_H fr). fold (fr_P fr).
+    assert (Hd : {fr_filter fr = EAll} + {fr_filter fr <> EAll})
+      by (destruct (fr_filter fr); try (right; discriminate); left; reflexivity).
+    destruct Hd as [Ea|Hne].
+    - rewrite Ea. split; [tauto|].
+      apply (bset_ext n); try apply tab_length. intros y Hy. rewrite !bmem_binter.
+      destruct (bmem (range_set c (fr_roots fr) (fr_H fr) (fr_P fr)) y) eqn:ER.
+      + change (den W c EAll) with (allset c).
+        rewrite (range_set_sub c (fr_roots fr) (fr_H fr) (fr_P fr) Hc Hwh y ER).
+        destruct (y <? n); reflexivity.
+      + now rewrite !andb_false_r.
+    - assert (Hm : match fr_filter fr with EAll => e | _ => EIntersection (fr_filter fr) e end
+                   = EIntersection (fr_filter fr) e)
+        by (destruct (fr_filter fr); try reflexivity; congruence).
+      replace (match fr_filter fr with EAll => e | ENone => _ | _ => _ end)
+        with (EIntersection (fr_filter fr) e).
+      + split; [cbn [wfs]; tauto|].
+        rewrite den_Intersection by assumption. symmetry. apply binter_assoc.
+      + symmetry. destruct (fr_filter fr); try reflexivity; congruence.
+  Qed.
+
+  Lemma fr_base_filter c e : okctx c -> wfs (x_refs c) e ->
+    fr_wfs (x_refs c) (fr_add_filter (fr_new ENone) e) /\
+    den W c e = fr_den c (fr_add_filter (fr_new ENone) e).
+  Proof.
+    intros Hc Hw. split; [repeat split; auto|].
+    unfold fr_den, fr_add_filter, fr_new, fr_H, fr_P. cbn [fr_roots fr_hp fr_filter opt_or fst snd].
+    rewrite range_set_vr, den_None, anc_full_empty, bdiff_empty_r by apply allset_length.
+    symmetry. apply binter_all_l; [apply den_length|now apply den_sub].
+  Qed.
+
+  Lemma a2hp_not_anc e : (forall h g p, e <> EAncestors h g p) -> a2hp e = None.
+  Proof. intros H. destruct e; try reflexivity. exfalso. eapply H. reflexivity. Qed.
+
+  Lemma tfr_spec c : okctx c -> forall e fr, to_filtered_range e = Some fr -> wfs (x_refs c) e ->
+    fr_wfs (x_refs c) fr /\ den W c e = fr_den c fr.
+  Proof.
+    intros Hc. induction e; intros fr H Hw; cbn [to_filtered_range a2hp] in H; try discriminate.
+    - (* All *) inversion H; subst. now apply fr_base_filter.
+    - (* Ancestors *)
+      destruct (a2hp (EAncestors e g p)) as [[h p']|] eqn:E.
+      + cbn [a2hp] in E. rewrite E in H. inversion H; subst; clear H.
+        destruct (a2hp_spec c (EAncestors e g p) h p' E Hw) as [Hwh Hd].
+        split; [repeat split; auto|].
+        unfold fr_den, fr_H, fr_P. cbn [fr_roots fr_hp fr_filter opt_or fst snd].
+        rewrite range_set_none, Hd. symmetry.
+        apply binter_all_r; [apply tab_length|]. apply anc_gen_sub_all. now apply den_sub.
+      + cbn [a2hp] in E. rewrite E in H. discriminate.
+    - (* Filter *) inversion H; subst. now apply fr_base_filter.
+    - (* AsFilter *) inversion H; subst. now apply fr_base_filter.
+    - (* NotIn *)
+      destruct (a2h e) as [roots|] eqn:E.
+      + inversion H; subst; clear H. cbn [wfs] in Hw.
+        destruct (a2h_spec c e roots E Hw) as [Hwr Hd].
+        split; [repeat split; auto|].
+        unfold fr_den, fr_new, fr_H, fr_P. cbn [fr_roots fr_hp fr_filter opt_or fst snd].
+        rewrite range_set_vr, den_NotIn, Hd. symmetry.
+        apply binter_all_r; [apply tab_length|].
+        intros y. rewrite bmem_bdiff, !andb_true_iff. tauto.
+      + inversion H; subst. now apply fr_base_filter.
+    - (* Intersection *)
+      cbn [wfs] in Hw. destruct Hw as [Hw1 Hw2].
+      destruct (to_filtered_range e1) as [fr1|] eqn:E1; [|discriminate].
+      cbn [option_map] in H. inversion H; subst; clear H.
+      destruct (IHe1 fr1 eq_refl Hw1) as [[Hwr [Hwh Hwf']] Hd1].
+      rewrite (den_Intersection c e1 e2) by assumption. rewrite Hd1.
+      unfold fr_add. destruct (fr_hp fr1) as [hp1|] eqn:Ehp.
+      + destruct (fr_add_filter_spec c fr1 e2 Hc (conj Hwr (conj Hwh Hwf')) Hw2) as [Ha Hb].
+        split; [exact Ha|now symmetry].
+      + destruct (a2hp e2) as [[h p']|] eqn:E2.
+        * destruct (a2hp_spec c e2 h p' E2 Hw2) as [Hwh2 Hd2].
+          split; [repeat split; auto|].
+          unfold fr_den, fr_H, fr_P. cbn [fr_roots fr_hp fr_filter opt_or fst snd]. rewrite Ehp.
+          cbn [opt_or fst snd]. rewrite range_set_vr, Hd2. unfold range_set.
+          assert (Hs : sub (anc_gen G p' GEN_FULL (den W c h)) (allset c))
+            by (apply anc_gen_sub_all; now apply den_sub).
+          apply (bset_ext n); try apply tab_length. intros y Hy.
+          rewrite !bmem_binter, !bmem_bdiff.
+          destruct (bmem (anc_gen G p' GEN_FULL (den W c h)) y) eqn:EA;
+            [rewrite (Hs y EA)|]; destruct (y <? n);
+            destruct (bmem (anc_full G (den W c (fr_roots fr1))) y);
+            destruct (bmem (den W c (fr_filter fr1)) y);
+            destruct (bmem (allset c) y); reflexivity.
+        * destruct (fr_add_filter_spec c fr1 e2 Hc (conj Hwr (conj Hwh Hwf')) Hw2) as [Ha Hb].
+          split; [exact Ha|now symmetry].
+  Qed.
+
+  Lemma to_heads_range_spec c x e' : okctx c -> to_heads_range x = Some e' ->
+    wfs (x_refs c) x -> wfs (x_refs c) e' /\ den W c e' = heads G (den W c x).
+  Proof.
+    intros Hc H Hw. unfold to_heads_range in H.
+    destruct (to_filtered_range x) as [fr|] eqn:E; [|discriminate].
+    cbn [option_map] in H. inversion H; subst; clear H.
+    destruct (tfr_spec c Hc x fr E Hw) as [[Hwr [Hwh Hwf']] Hd].
+    fold (fr_H fr). fold (fr_P fr).
+    split; [cbn [wfs]; tauto|].
+    rewrite den_HeadsRange by assumption. rewrite Hd. reflexivity.
+  Qed.
+
+  Lemma fold_heads_range_sound : sound_post fold_heads_range_post.
+  Proof.
+    intros c e e' Hc Hw H. destruct e; try discriminate; cbn [fold_heads_range_post] in H;
+      cbn [wfs] in Hw.
+    - (* ::x *)
+      destruct (gen_is_full g && nrange_eqb p PR_FULL) eqn:Eg; [|discriminate].
+      apply andb_true_iff in Eg. destruct Eg as [Eg Ep].
+      apply gen_is_full_eq in Eg. apply nrange_eqb_eq in Ep. subst g p.
+      destruct (to_heads_range e) as [h'|] eqn:E; [|discriminate].
+      cbn [option_map] in H. inversion H; subst; clear H.
+      destruct (to_heads_range_spec c e h' Hc E Hw) as [Hw' Hd].
+      split; [exact Hw'|].
+      change (den W c (EAncestors h' GEN_FULL PR_FULL)) with (anc_full G (den W c h')).
+      change (den W c (EAncestors e GEN_FULL PR_FULL)) with (anc_full G (den W c e)).
+      rewrite Hd. apply anc_full_heads.
+    - (* heads(x) *)
+      exact (to_heads_range_spec c e e' Hc H Hw).
+  Qed.
+
+  (* ---------------------------------------------------------------- all passes, composed *)
+
+  Lemma passes_sound : Forall sound_post passes.
+  Proof.
+    unfold passes.
+    apply Forall_cons; [exact unfold_difference_sound|].
+    apply Forall_cons; [exact fold_redundant_sound|].
+    apply Forall_cons; [exact fold_generation_sound|].
+    apply Forall_cons; [exact flatten_intersections_sound|].
+    apply Forall_cons; [exact sort_negations_sound|].
+    apply Forall_cons; [exact fold_ancestors_union_sound|].
+    apply Forall_cons; [exact internalize_filter_sound|].
+    apply Forall_cons; [exact fold_heads_range_sound|].
+    apply Forall_cons; [exact fold_difference_sound|].
+    apply Forall_cons; [exact fold_not_in_ancestors_sound|].
+    apply Forall_nil.
+  Qed.
+
+  Lemma run_passes_sound ps : Forall sound_post ps ->
+    forall e c, okctx c -> wfs (x_refs c) e -> preserved c e (run_passes ps e).
+  Proof.
+    unfold run_passes. induction 1 as [|post ps Hp Hps IH]; intros e c Hc Hw; cbn [fold_left].
+    - split; [exact Hw|reflexivity].
+    - destruct (tr_sound post Hp e c Hc Hw) as [Hw1 Hd1].
+      destruct (IH (tr post e) c Hc Hw1) as [Hw2 Hd2]. split; [exact Hw2|congruence].
+  Qed.
+
+  (** Input validity: scopes already present in the input are correctly scoped
+      ([resolve_referenced_commits] trusts them), and visibility scopes are non-empty. *)
+  Fixpoint pre_ok (e : expr) : Prop :=
+    match e with
+    | ENone | EAll | EVisibleHeads | EVisibleHeadsOrReferenced | ERoot | EForks | EFilter _
+    | ECommits _ => True
+    | EAncestors x _ _ | EDescendants x _ => pre_ok x
+    | ERange a b _ _ | EDagRange a b | EReachable a b | ECoalesce a b | EUnion a b
+    | EIntersection a b | EDifference a b => pre_ok a /\ pre_ok b
+    | EHeads x | ERoots x | EForkPoint x | EMergePoint x | EBisect x | ELatest x _
+    | EAsFilter x | EPresent x | ENotIn x => pre_ok x
+    | EHeadsRange a b _ f => pre_ok a /\ pre_ok b /\ pre_ok f
+    | EWithinReference x cs => wfs cs x
+    | EWithinVisibility x vh => (exists v, In v vh /\ v < n) /\ pre_ok x
+    end.
+
+  Lemma incl_app_l {A} (a b r : list A) : incl (a ++ b) r -> incl a r.
+  Proof. intros H x Hx. apply H. apply in_or_app. now left. Qed.
+  Lemma incl_app_r {A} (a b r : list A) : incl (a ++ b) r -> incl b r.
+  Proof. intros H x Hx. apply H. apply in_or_app. now right. Qed.
+  Lemma incl_2 {A} (o1 o2 i1 i2 r : list A) :
+    incl ((o1 ++ o2) ++ (i1 ++ i2)) r -> incl (o1 ++ i1) r /\ incl (o2 ++ i2) r.
+  Proof.
+    intros H. split; intros x Hx; apply H; apply in_app_or in Hx;
+      apply in_or_app; destruct Hx; [left|right|left|right]; apply in_or_app; auto.
+  Qed.
+  Lemma incl_3 {A} (o1 o2 o3 i1 i2 i3 r : list A) :
+    incl ((o1 ++ o2 ++ o3) ++ (i1 ++ i2 ++ i3)) r ->
+    incl (o1 ++ i1) r /\ incl (o2 ++ i2) r /\ incl (o3 ++ i3) r.
+  Proof.
+    intros H. repeat split; intros x Hx; apply H; apply in_app_or in Hx;
+      apply in_or_app; destruct Hx;
+      [left|right|left|right|left|right]; repeat (apply in_or_app; auto; right); auto;
+      apply in_or_app; auto.
   Qed.
 End Sound.
